@@ -3,7 +3,8 @@
 import json, sys
 pid = sys.argv[1]; wt = sys.argv[2]; n = sys.argv[3] if len(sys.argv) > 3 else "2"
 ROUND2 = len(sys.argv) > 4
-ROUND3 = len(sys.argv) > 4 and sys.argv[4] == "r3"
+ROUND3 = len(sys.argv) > 4 and sys.argv[4] in ("r3", "r4")
+ROUND4 = len(sys.argv) > 4 and sys.argv[4] == "r4"
 for l in open('/verif/properties.jsonl'):
     p = json.loads(l)
     if p['id'] == pid:
@@ -17,7 +18,7 @@ STATEMENT: {p['statement']}
 QUANTIFIED OVER: {p['quantifier']['text']}
 RELEVANT FILES: {', '.join(p['anchors']['files'])}
 
-Your job: produce {n} DIFFERENT small source changes ("mutants") to the library, each of which BREAKS this property while (a) still compiling, and (b) still passing the library's existing tests for the affected package(s) (run them: for package ants ONLY run `go test -count=1 -run 'TestPool_Send|TestPool_GetMultiTimes|TestPool_HandleTooLongTime' ./ants` because other ants tests hang; for cachex the tests TestCache_Predecessor and TestCache_GetSet are flaky under load — ignore those two). Prefer changes that need something specific to manifest — a particular interleaving of goroutines, a fault or completion at a particular instant, a multi-step sequence of operations, an unusual input, or two cooperating sites that each look fine alone — NOT ones that ordinary use would expose at once. """ + ("An earlier round already produced the obvious candidates (dropping a helping branch, flipping a comparison at a boundary, reverting a recent fix, moving a store before a callback, replacing a CAS by a store). Go further: rarely-taken branches, capacity/threshold arithmetic, an error path, the second call of a sequence, state left behind by a previous operation, option handling, integer width, two sites that only fail together. " if ROUND2 else "") + ("A further round covered those as well. Now look for what is left: goroutine / timer / channel lifecycle (start, stop, close, reuse after close), resources or buffers reused between calls, defaults and zero values of options, exactly equal instants and zero or negative durations, values near the limits of their integer or float type, behaviour only visible with three or more goroutines or after many operations, tolerated API misuse the statement still covers, and 'optimisations' that cache or skip work that was needed in a rare case. " if ROUND3 else "") + f"""Changes must be realistic (the kind of thing a refactoring or an 'optimisation' could introduce), must not touch files named verif_on.go / verif_off.go, must not remove the existing `verifYield(...)` calls, and must not edit tests.
+Your job: produce {n} DIFFERENT small source changes ("mutants") to the library, each of which BREAKS this property while (a) still compiling, and (b) still passing the library's existing tests for the affected package(s) (run them: for package ants ONLY run `go test -count=1 -run 'TestPool_Send|TestPool_GetMultiTimes|TestPool_HandleTooLongTime' ./ants` because other ants tests hang; for cachex the tests TestCache_Predecessor and TestCache_GetSet are flaky under load — ignore those two). Prefer changes that need something specific to manifest — a particular interleaving of goroutines, a fault or completion at a particular instant, a multi-step sequence of operations, an unusual input, or two cooperating sites that each look fine alone — NOT ones that ordinary use would expose at once. """ + ("An earlier round already produced the obvious candidates (dropping a helping branch, flipping a comparison at a boundary, reverting a recent fix, moving a store before a callback, replacing a CAS by a store). Go further: rarely-taken branches, capacity/threshold arithmetic, an error path, the second call of a sequence, state left behind by a previous operation, option handling, integer width, two sites that only fail together. " if ROUND2 else "") + ("A further round covered those as well. Now look for what is left: goroutine / timer / channel lifecycle (start, stop, close, reuse after close), resources or buffers reused between calls, defaults and zero values of options, exactly equal instants and zero or negative durations, values near the limits of their integer or float type, behaviour only visible with three or more goroutines or after many operations, tolerated API misuse the statement still covers, and 'optimisations' that cache or skip work that was needed in a rare case. " if ROUND3 else "") + ("Those have been tried too. What is left now: other entry points reaching the same behaviour (the same operation exposed by several types, wrappers or convenience functions - change one and leave its sibling intact), helper functions in OTHER packages of this repository that the code relies on, constructors / option functions / package-level variables shared between objects, behaviour after an error was already returned once, sizes and values exactly at the code's internal thresholds (e.g. 12, 64, 127/128, 16383/16384, 2^k and 2^k +- 1, the last valid index), the interplay of two different API calls on the same object, and changes that keep every single call's immediate result right but corrupt what a LATER call sees. Each of your changes must be of a different kind. " if ROUND4 else "") + f"""Changes must be realistic (the kind of thing a refactoring or an 'optimisation' could introduce), must not touch files named verif_on.go / verif_off.go, must not remove the existing `verifYield(...)` calls, and must not edit tests.
 
 For EACH mutant k = 1..{n}:
 1. start from a clean tree (`git -C {wt} checkout -- . && git -C {wt} clean -fdq`), make the change, save it with `git -C {wt} diff > {wt}-out/{pid}-mut$k.diff` (the directory {wt}-out/ exists; all your output files go there).
